@@ -1,4 +1,5 @@
 import Driver.Util
+import Driver.C01
 import Driver.C02
 import Driver.C04
 /-
@@ -10,6 +11,7 @@ open Amqp
 
 structure DState where
   rd : RdState := {}
+  wire : Amqp.Wire.S := {}
 
 def handlers : List Handler := [
   Driver.C04.handle
@@ -19,6 +21,9 @@ def step (st : DState) (line : String) : DState × String :=
   let args := line.trimAscii.toString.splitOn " "
   match Driver.C02.step st.rd args with
   | some (rd, o) => ({ st with rd := rd }, o)
+  | none =>
+  match Driver.C01.stepCmd st.wire args with
+  | some (w, o) => ({ st with wire := w }, o)
   | none =>
     match handlers.findSome? (fun h => h args) with
     | some o => (st, o)
